@@ -188,6 +188,27 @@ def run(shard, rec):
                 viol(f'ring law {name} fails for ({ai},{bi},{ci})', 'law_' + name, case)
         rec.case(case, nontrivial=max(ai, bi, ci) >= p)
 
+    # polynomials of one prime keep working together whatever else the process does in between (150 other primes pass through GFpX)
+    case = [p, 'history']
+    if rec.wants(case):
+        old_a, old_b = P(rng.randrange(p ** 3)), P(rng.randrange(1, p ** 2))
+        cnt, n_ = 0, 200 + rng.randrange(300)
+        while cnt < 150:
+            n_ += 1
+            if R.is_prime_td(n_) and n_ != p:
+                gfpx.GFpX(n_)
+                cnt += 1
+        Pn = gfpx.GFpX(p)
+        new_b = Pn(list(old_b))
+        rec.count('class_history_checks')
+        with rec.guard(f'p={p}: polynomials created before and after 150 other GFpX types', case, dict(feats, op='history')):
+            if Pn is not P:
+                viol('GFpX(p) returns another class after 150 other primes were used', 'history', case)
+            r1 = [L_ for L_ in (list(old_a + new_b), list(old_a * new_b), list(old_a % new_b), list(P.gcd(old_a, new_b)))]
+            r2 = [R.padd(list(old_a), list(old_b), p), R.pmul(list(old_a), list(old_b), p), R.pdivmod(list(old_a), list(old_b), p)[1], R.pgcd(list(old_a), list(old_b), p)]
+            if r1 != r2 or not (new_b == old_b):
+                viol('results of mixing polynomials created before and after differ from the reference', 'history', case)
+        rec.case(case, nontrivial=True)
     if shard['mode'] == 'exh':
         N = p ** (shard['deg'] + 1)
         for ai in range(N):
